@@ -14,10 +14,14 @@ def run(ctx):
                 "iterator being arbitrarily slow is the feeding thread being scheduled arbitrarily late; flow control is exercised by "
                 "results_queue_maxsize=1 with workers finishing out of order. distinct = distinct (scenario, schedule) executions")
     # design level: exhaustive TLC runs of FunctorPool.tla and conformance of the real code with it
-    hconf = poolsim.Harness()
+    try:
+        hconf = poolsim.Harness()
+    except Exception:
+        hconf = None              # see run_family: controlled legs degrade, the exhaustive runs of the model still happen
     crnd = random.Random(ctx.seed * 7919 + 55)
     configs = [('C2', 1, 1, 0), ('C2', 2, 2, 1), ('C0', 1, 1, 0)] if quick else [('C2', 1, 1, 0), ('C2', 2, 2, 1), ('C0', 1, 1, 0), ('C3', 2, 1, 1), ('C3', 2, 2, 0), ('C3', 3, 3, 1)]
-    hconf.shared = hconf.learn(poolconf.scen_for("C2", 1, 1, 0, JUDGE), crnd)
+    if hconf is not None:
+        hconf.shared = hconf.learn(poolconf.scen_for("C2", 1, 1, 0, JUDGE), crnd)
     poolconf.design_legs(ctx, configs, ['NoDeadlock'], True, ['NoDeadlock'], hconf, crnd, 30 if quick else 300, 30 if quick else 300, JUDGE)
     rnd = random.Random(ctx.seed * 7919 + 102)
     scens = C01.scenarios(rnd, quick, JUDGE)
